@@ -9,7 +9,10 @@ CFG = dict(
          "with fuzzed arguments (ConfigureTriggers, ConfigurePulseLengths, ConfigureProjectorsBasis incl. malformed base64/matrix bytes, WriteControl with 10 "
          "request strings x 3 path kinds x file-type flags, SetExperimentStateLabel(wait), WriteComment, FB/err coupling, group-trigger coupling, "
          "StopTriggerCoupling, StoreRawDataBlock; ~30% negative / out-of-range / huge indices and sizes) interleaved with blocks, Stop, self-termination "
-         "(error block, stale active flag) and flag refresh; `timing` = every gate site gated and a seeded scheduler choosing when 1-4 callers, 0-2 Stops, "
+         "(error block, stale active flag) and flag refresh; `pair` = 2-6 rounds of TWO requests in flight at once from two goroutines, one that must fail and one that must succeed "
+         "(fixed requests whose reply does not depend on the other), gated so that the first caller is parked between handing over its request and receiving its "
+         "result while the second is let through first whenever it gets that far; each caller's reply must be the model's reply to ITS request; "
+         "`timing` = every gate site gated and a seeded scheduler choosing when 1-4 callers, 0-2 Stops, "
          "blocks and the source's own end happen; `fault` = comment file uncreatable, data-drop file uncreatable while a block is processed, pixel map vs "
          "channel numbers, Lancero mix requests through the real request consumer (indices, list lengths). Each reply is compared with the Lean request "
          "semantics / validators, the verifPoint trace must be a run of the transition system with every eff.* call inside a closure (or ProcessSegments inside "
@@ -33,7 +36,7 @@ MANIFEST = dict(
     text="PARTIAL (concurrency skeleton). Lean theorems: C11_one_reply_per_path (soundness of the decidable check run on the closure table that is regenerated from "
          "rpc_server.go by go/ast on every run: every acyclic path of every closure passed to runLaterIfActive sends exactly one result), C11_validators_total (for "
          "ALL argument values - negative, out-of-range, huge indices, mismatched list lengths - acceptance implies every slice access of the handler / request "
-         "consumer is in range; no panic), C11_one_reply_each (every request of every history gets exactly one reply, result or error), C11_mutex_with_blocks "
+         "consumer is in range; no panic), C11_one_reply_each (every request of every history gets exactly one reply, result or error), C11_reply_is_own (hand-over model with caller identities and unbuffered channels: in every interleaving each caller receives the result of its own closure; with a one-slot buffer a foreign reply is reachable), C11_mutex_with_blocks "
          "(processing configuration changes only when the core loop takes a request in its select, at its exit, or in a Stop caller's clean-up when no loop exists - "
          "never while a block is processed), C11_no_wedge (in EVERY reachable state of the life-cycle/rendezvous transition system - m callers, k Stops, "
          "self-termination, stale active flag - the loop never blocks on a reply nobody reads, a waiting caller's closure is running, a caller facing a dead loop "
@@ -54,6 +57,8 @@ THEOREMS = [
     ("DastardV.Props.C11", "DastardV.C11.C11_table_paths_wf"),
     ("DastardV.Props.C11", "DastardV.C11.C11_validators_total"),
     ("DastardV.Props.C11", "DastardV.C11.C11_one_reply_each"),
+    ("DastardV.Props.C11", "DastardV.C11.C11_reply_is_own"),
+    ("DastardV.Props.C11", "DastardV.C11.C11_buffered_reply_can_be_foreign"),
     ("DastardV.Props.C11", "DastardV.C11.C11_after_end_error"),
     ("DastardV.Props.C11", "DastardV.C11.C11_mutex_with_blocks"),
     ("DastardV.Props.C11", "DastardV.C11.C11_no_wedge"),
